@@ -28,7 +28,7 @@ func recPaths(ti *mon.TraceIndex, rec string) []string {
 func c08(args []string) {
 	c := chk.New("C08", "exploration", args)
 	c.Build(false)
-	c.Rule("chains and trees of 1-3 processing stages with 3-40 items; recorder components in front of every in-port (single sender, so their log is the arrival order) and behind every out-port; task durations assigned so that completion order is the reverse or a random permutation of arrival order; slots in {2,4,16}, SCIPIPE_BUFSIZE in {1,3,128} (and 0 = unbuffered with a two-out-port process read by two recorders), a parameter source fanned out to the parameter ports of a slow and a quick process (values > buffer), slow downstream recorders (buffers fill up), some middle tasks skipped because their outputs pre-exist, fan-in of two upstreams through a recording merge point; bundled components between recorders (FileCombinator: first occurrences on each out-port in arrival order; IPSelectorSync: selected items in arrival order; MapToTags: pass-through, also with a map function that tags only every third file; sub-stream members in a joined placeholder, also with a file arriving twice) with file names whose arrival order is not lexicographic; oracle: sequence behind each out-port == image (through the reference's task -> out-path map) of the sequence recorded in front of the in-port; projection of a merged sequence onto each upstream == that upstream's own output sequence; every item passing a recorder behind a non-streaming out-port of a command / Go-function process must be a file at that moment (the recorder stats it on reception). distinct_nontrivial = runs in which the completion order of some process really differed from its arrival order (measured from the commands' end stamps), distinct by (shape, config, permutation)")
+	c.Rule("[repeated input sets] the same input reaches a process a second time while its first task has executed but still waits behind a slow head: it leaves the port where it was received; chains and trees of 1-3 processing stages with 3-40 items; recorder components in front of every in-port (single sender, so their log is the arrival order) and behind every out-port; task durations assigned so that completion order is the reverse or a random permutation of arrival order; slots in {2,4,16}, SCIPIPE_BUFSIZE in {1,3,128} (and 0 = unbuffered with a two-out-port process read by two recorders), a parameter source fanned out to the parameter ports of a slow and a quick process (values > buffer), slow downstream recorders (buffers fill up), some middle tasks skipped because their outputs pre-exist, fan-in of two upstreams through a recording merge point; bundled components between recorders (FileCombinator: first occurrences on each out-port in arrival order; IPSelectorSync: selected items in arrival order; MapToTags: pass-through, also with a map function that tags only every third file; sub-stream members in a joined placeholder, also with a file arriving twice) with file names whose arrival order is not lexicographic; oracle: sequence behind each out-port == image (through the reference's task -> out-path map) of the sequence recorded in front of the in-port; projection of a merged sequence onto each upstream == that upstream's own output sequence; every item passing a recorder behind a non-streaming out-port of a command / Go-function process must be a file at that moment (the recorder stats it on reception). distinct_nontrivial = runs in which the completion order of some process really differed from its arrival order (measured from the commands' end stamps), distinct by (shape, config, permutation)")
 	c.Assume("recorders are harness components written against the public BaseProcess/InPort/OutPort API")
 	rng := c.Rand("c08")
 	type job struct {
@@ -530,6 +530,7 @@ func c08(args []string) {
 		}
 	})
 	c08edgeConfigs(c)
+	c08duplicates(c)
 	c.Finish()
 }
 
@@ -646,5 +647,56 @@ func c08edgeConfigs(c *chk.Ctx) {
 		}
 		c.Count("param_fanout_runs", 1)
 		c.Nontrivial(fmt.Sprintf("paramfanout|%d|%v", n, cfg))
+	})
+}
+
+// c08duplicates: the same input set reaches a process twice in one run, the second time when the first task has
+// executed but is still waiting in the queue behind a slow head: the repetition (skipped, its output exists) leaves
+// the out-port where it was received, not where its first occurrence is.
+func c08duplicates(c *chk.Ctx) {
+	run.Parallel(c.Pick(3, 9), func(i int) {
+		root := c.CaseDir()
+		defer c.Drop(root)
+		s := &spec.Spec{Name: "duporder", MaxTasks: 4, Sources: map[string]string{"da.txt": "a\n", "dx.txt": "x\n", "db.txt": "b\n", "dc.txt": "c\n"}}
+		files := [][]string{{"da.txt", "dx.txt", "db.txt", "dx.txt"}, {"da.txt", "dx.txt", "db.txt", "dc.txt", "dx.txt", "db.txt"}, {"da.txt", "dx.txt", "dx.txt", "db.txt"}}[i%3]
+		s.Procs = append(s.Procs, &spec.Proc{Name: "src", Kind: spec.KFileSource, Files: files}, &spec.Proc{Name: "RIN", Kind: spec.KRecorder, DelayMS: 350},
+			&spec.Proc{Name: "P", Kind: spec.KCmd, Cmd: spec.BuildCmd("P", []spec.PortDecl{{Name: "in"}}, []spec.PortDecl{{Name: "out"}}, nil, nil, nil), Outs: []*spec.Out{{Port: "out", Pattern: "{i:in|basename}.P.out"}}},
+			&spec.Proc{Name: "ROUT", Kind: spec.KRecorder})
+		s.Conns = append(s.Conns, &spec.Conn{From: "src.out", To: "RIN.in"}, &spec.Conn{From: "RIN.out", To: "P.in"}, &spec.Conn{From: "P.out", To: "ROUT.in"})
+		// the first task is slow: everything else queues behind it
+		bh := vproto.Behaviours{vproto.TaskKey("P", []vproto.KV{{K: "in", V: "da.txt"}}, nil, nil): {"sleep": fmt.Sprint(350*len(files) + 400)}}
+		cfg := Cfg{Buf: []int{1, 128}[i%2], Procs: 4, NoHooks: i%2 == 1}
+		desc := map[string]interface{}{"inputs_in_order": files, "cfg": cfg, "spec": s, "behav": bh}
+		res := execSpec(c, root, s, cfg, bh, false, 0)
+		if res.Hang != "" {
+			if strings.HasPrefix(res.Hang, "deadlock") {
+				c.Violation("duplicates-hang", res.Hang, desc)
+			} else {
+				c.Inconclusive(res.Hang)
+			}
+			return
+		}
+		if res.Exit != 0 || !res.Returned {
+			if strings.Contains(res.Output(), "Existing temp folders found") {
+				// the repetition arrived while its first occurrence was still executing (a loaded machine): the library
+				// refuses that, and the case says nothing about order
+				c.Inconclusive("duplicate input arrived while its first occurrence was still executing")
+				return
+			}
+			c.Violation("duplicates-run-failed", fmt.Sprintf("exit %d: %s", res.Exit, tail(res.Output(), 400)), desc)
+			return
+		}
+		ti := mon.Index(res.Trace)
+		arr, got := recPaths(ti, "RIN"), recPaths(ti, "ROUT")
+		var want []string
+		for _, a := range arr {
+			want = append(want, a+".P.out")
+		}
+		if strings.Join(got, " ") != strings.Join(want, " ") {
+			c.Violation("order-not-preserved:repeated-input-set", fmt.Sprintf("inputs arrived as %v, so the out-port must emit %v, but emitted %v", arr, want, got), desc)
+			return
+		}
+		c.Count("repeated_input_runs", 1)
+		c.Nontrivial(fmt.Sprintf("duporder|%d|%v", i%3, cfg))
 	})
 }
